@@ -456,9 +456,13 @@ impl BtpInner {
             .is_ack_due(Instant::now(), self.ack_timeout_secs as _)
         {
             let len = self.session.prep_tx_data(&[], &mut 0, buf)?;
-            assert!(len > 0);
+            if len > 0 {
+                return Ok(len);
+            }
 
-            return Ok(len);
+            // The ACK is due, but our send window is exhausted, because the peer
+            // is not acknowledging our own segments: there is nothing we can send.
+            // It is up to the idle timeout to take the session down.
         }
 
         Ok(0)
